@@ -440,6 +440,25 @@ func runEngineH(p *Prog, o *obls) {
 					bad = append(bad, fmt.Sprintf("%s at %s is given %s, which is not the value stored to %s", instrBrief(in), p.instrPos(in), valueString(cc.Args[0]), ps.field))
 				}
 			})
+			// the pacer is told synchronously: after each store a pacer call is reached in the same function (an
+			// asynchronous hand-off can deliver two changes out of order and leave the pacer on a stale rate)
+			for _, st := range stores {
+				toldAfter := false
+				instrsOf(fn, func(in ssa.Instruction) {
+					c, ok := in.(*ssa.Call)
+					if !ok || !c.Call.IsInvoke() {
+						return
+					}
+					for _, m := range ps.methods {
+						if c.Call.Method.Name() == m && canReach(st, c) {
+							toldAfter = true
+						}
+					}
+				})
+				if !toldAfter {
+					bad = append(bad, fmt.Sprintf("after the store at %s the pacer is not told the new value synchronously in this function", p.instrPos(st)))
+				}
+			}
 			if len(bad) > 0 {
 				o.bad("H2", key, p.instrPos(stores[0]), strings.Join(bad, "; "))
 			} else {
